@@ -60,4 +60,53 @@ theorem reorder_perm (func : Func) (lin : Lin) (h : func ≠ []) :
     have := pickOrder_perm lin ((List.range (func.length - 1)).map (· + 1)) (nodup_range_succ _)
     simpa using this
 
+set_option linter.unusedVariables false in
+/-- T2 for rank 3 and the general step lemma (the chain composes to the rule) -/
+theorem chain_step (lin : Lin) (fo : List Nat) (h : wfLin lin fo = true) (hk : 2 ≤ fo.length)
+    (e0 : List (List Atom)) (rest : List (List (List Atom))) :
+    -- evaluating `topLin lin` on element 0 and the evaluated `restLin lin` equals evaluating `lin` directly
+    (instLin (restLin lin) rest).bind (fun r => instLin (topLin lin) [e0, r]) = instLin lin (e0 :: rest) :=
+  chain_step' lin (WF'_of_wfLin lin fo h) e0 rest
+
+theorem chain_composes (func : Func) (lin : Lin) (h : wfLin lin ((fanOut lin).drop 1) = true)
+    (hl : (fanOut lin).length = func.length) : chainComposesPos func lin = true := by
+  unfold chainComposesPos
+  by_cases h3 : func.length ≤ 3
+  · simp [h3]
+  · simp only [h3, if_false]
+    have hlen : ((fanOut lin).drop 1).length = func.length - 1 := by simp [hl]
+    have helems : ((List.range (func.length - 1)).map fun i => formalBlocks i ((fanOut lin)[i + 1]?.getD 0)) =
+        ((List.range ((fanOut lin).drop 1).length).map fun i =>
+          formalBlocks i (((fanOut lin).drop 1)[i]?.getD 0)) := by
+      rw [hlen]
+      apply List.map_congr_left
+      intro i _
+      rw [List.getElem?_drop, Nat.add_comm]
+    rw [helems, evalChain_chainLins _ _ _ (WF'_of_wfLin _ _ h) (by simp [hl]; omega), instLin_formal _ _ h]
+    simp
+
+/-! ### concrete instances -/
+
+/-- a rule of rank 4 with fan-outs 2 1 2 1 and LHS fan-out 2 -/
+def exFunc : Func := ["S".toList, "A".toList, "B".toList, "C".toList, "D".toList]
+def exLin : Lin := [[(0, 0), (2, 0), (1, 0)], [(3, 0), (0, 1), (2, 1)]]
+
+example : ∀ e ∈ (binarizeRule none exFunc exLin 3 [] {} []).2, e.1.length ≤ 3 :=
+  binarizeRule_rank none exFunc exLin 3 [] {} [] (by simp)
+example : ∀ e ∈ binarizeGrammar .optimal (some ⟨1, 2, false⟩)
+    (Grammar.add [] exFunc exLin (.ctx ["S2".toList]) 3),
+    e.1.length ≤ 3 := binarizeGrammar_rank _ _ _
+example : binarizeRule none (exFunc.take 3) [[(0, 0), (1, 0)]] 2 [] {} [] =
+    ({}, Grammar.add [] (exFunc.take 3) [[(0, 0), (1, 0)]] .default 2) :=
+  small_rule_kept _ _ _ _ _ _ _ (by decide)
+example : (nextLabel none ⟨7⟩ exFunc 0 [] []).1 = uniqueLabel 8 := (unique_labels_fresh ⟨7⟩ exFunc 0 [] []).1
+example : uniqueLabel 12 ≠ uniqueLabel 21 := fun h => absurd (uniqueLabel_injective _ _ h) (by decide)
+example : (pickOrder exLin [1, 2, 3, 4] 4).Perm [1, 2, 3, 4] := pickOrder_perm exLin [1, 2, 3, 4] (by decide)
+example : ((reorderingOptimal exFunc exLin).1.drop 1).Perm (exFunc.drop 1) := (reorder_perm exFunc exLin (by decide)).2
+example : wfLin exLin [2, 1, 2, 1] = true := by decide
+example (e0 : List (List Atom)) (rest : List (List (List Atom))) :
+    (instLin (restLin exLin) rest).bind (fun r => instLin (topLin exLin) [e0, r]) = instLin exLin (e0 :: rest) :=
+  chain_step exLin [2, 1, 2, 1] (by decide) (by decide) e0 rest
+example : chainComposesPos exFunc exLin = true := chain_composes exFunc exLin (by decide) (by decide)
+
 end TT.Props.C07
